@@ -61,7 +61,7 @@ def list_spec(ops):
 def shrink(exe, sz, ops):
     """Delta-debug the op list while the implementation still deviates from the list spec."""
     def fails(o):
-        out = vlib.harness(exe, ["safequeue-replay", str(sz)] + o).strip()
+        out = vlib.harness(exe, ["replay", str(sz)] + o).strip()
         got = out.split("|")[2]
         return got.startswith("PANIC") or got.split() != list_spec(o)
     if not fails(ops):
@@ -84,7 +84,7 @@ def shrink(exe, sz, ops):
 
 def run(res):
     quick = res.tier == "quick"
-    tr = vlib.run_translator()
+    tr = vlib.run_translator("safequeue")
     gen_status = tr["files"].get("Data/gen/SafeQueueGen.v", {})
     res.cov["translator"] = {"Data/gen/SafeQueueGen.v": gen_status,
                              "shapes": {k: v for k, v in tr["shapes"].items() if k.startswith("safequeue/")}}
@@ -95,11 +95,11 @@ def run(res):
     ]
     res.assumptions += ["SafeQueue methods are atomic under their mutex (DirtyPop/HeadItem callers hold it)",
                         "queue length < 2^64"]
-    exe, err = vlib.build_harness()
+    exe, err = vlib.build_harness("safequeue")
     if exe is None:
         raise vlib.Infra("harness does not build against /repo (is the tree compilable?):\n" + err)
     # correspondence T1 (API level)
-    args = ["safequeue", "-seed", str(res.seed), "-n", "400" if quick else "6000", "-len", "70" if quick else "220",
+    args = ["run", "-seed", str(res.seed), "-n", "400" if quick else "6000", "-len", "70" if quick else "220",
             "-exhaustive", "5" if quick else "7"]
     corpus = [l.strip() for l in open(vlib.VERIF + "/corpus/C03/safequeue.cases")] if \
         __import__("os").path.exists(vlib.VERIF + "/corpus/C03/safequeue.cases") else []
@@ -107,7 +107,7 @@ def run(res):
     for c in corpus:
         if not c or c.startswith("#"): continue
         sz, ops = c.split("|")[:2]
-        corpus_lines.append(vlib.harness(exe, ["safequeue-replay", sz] + ops.split()).strip())
+        corpus_lines.append(vlib.harness(exe, ["replay", sz] + ops.split()).strip())
     lines = corpus_lines + [l for l in vlib.harness(exe, args).splitlines() if l.strip()]
     bad = eval_sq_cases(lines, "C03") if pr_model_ok(pr) else None
     res.cov["evaluations"] = len(lines)
@@ -163,10 +163,10 @@ def decide(res, pr, bad, lines, exe, gen_status):
     if failing:
         sz, ops, outs = failing
         ops = shrink(exe, sz, ops)
-        got = vlib.harness(exe, ["safequeue-replay", str(sz)] + ops).strip().split("|")[2]
+        got = vlib.harness(exe, ["replay", str(sz)] + ops).strip().split("|")[2]
         res.violation(dict(kind="safequeue-ops", shard_size=sz, ops=ops, implementation_outputs=got,
                            fifo_list_spec_outputs=" ".join(list_spec(ops)), broken=what,
-                           replay_cmd="harness/bin/gmqh safequeue-replay %d %s" % (sz, " ".join(ops))),
+                           replay_cmd="harness/bin/safequeue replay %d %s" % (sz, " ".join(ops))),
                       True, "safequeue deviates from FIFO list: shard size %d ops %s" % (sz, " ".join(ops)))
     else:
         res.violation(dict(kind="obligation", broken=what, translator=gen_status,
@@ -175,9 +175,9 @@ def decide(res, pr, bad, lines, exe, gen_status):
 
 def replay(path):
     r = json.load(open(path))
-    exe, err = vlib.build_harness()
+    exe, err = vlib.build_harness("safequeue")
     if r.get("kind") == "safequeue-ops":
-        out = vlib.harness(exe, ["safequeue-replay", str(r["shard_size"])] + r["ops"]).strip()
+        out = vlib.harness(exe, ["replay", str(r["shard_size"])] + r["ops"]).strip()
         print("implementation:", out)
         print("fifo list spec:", " ".join(list_spec(r["ops"])))
         return 0 if out.split("|")[2].split() == list_spec(r["ops"]) else 1
